@@ -436,6 +436,23 @@ fn sched_for(kind: char, mode: &str, n: usize, half: usize) -> Sched {
     }
     s
 }
+fn random_stream(rng: &mut Rng, count: usize, allow_short: bool) -> Stream {
+    let n = rng.below(count as u64 + 3) as usize;
+    let mut p = VecDeque::new();
+    for _ in 0..n {
+        p.push_back(match rng.below(20) {
+            0 | 1 => Fault::Err,
+            2 | 3 => Fault::Intr,
+            4 | 5 if allow_short => Fault::Short(rng.range(1, 9) as usize),
+            _ => Fault::Ok,
+        });
+    }
+    Stream { pending: p, dflt_err: rng.chance(1, 6) }
+}
+/// several faults at once, on all call kinds
+fn random_sched(rng: &mut Rng, counts: [usize; 4]) -> Sched {
+    Sched { w: random_stream(rng, counts[0], true), f: random_stream(rng, counts[1], false), s: random_stream(rng, counts[2], false), r: random_stream(rng, counts[3], true) }
+}
 const W_MODES: &[&str] = &["perm", "once", "intr", "intr3", "short1", "shorthalf", "zero"];
 const FS_MODES: &[&str] = &["perm", "once", "intr"];
 const R_MODES: &[&str] = &["perm", "once", "intr", "short1", "shorthalf"];
@@ -453,6 +470,7 @@ struct Ctx {
     runs: usize,
     ok_runs: usize,
     err_runs: usize,
+    random_runs: usize,
     viols: usize,
     per_scn: std::collections::BTreeMap<String, usize>,
     modes: std::collections::BTreeMap<String, usize>,
@@ -466,7 +484,7 @@ fn viol(ctx: &mut Ctx, key: &str, desc: &str, scn: &str, sched: &str, extra: &[(
 }
 
 /// Runs all single-fault schedules of one writer scenario; `run` performs the scenario.
-fn sweep_writer(ctx: &mut Ctx, scn: &str, key_suffix: &str, stack: &str, run: &dyn Fn(Sched) -> Outcome, check_valid: &dyn Fn(&[u8]) -> Option<String>) {
+fn sweep_writer(ctx: &mut Ctx, rng: &mut Rng, nrandom: usize, scn: &str, key_suffix: &str, stack: &str, run: &dyn Fn(Sched) -> Outcome, check_valid: &dyn Fn(&[u8]) -> Option<String>) {
     let base = run(Sched::default());
     if !base.class.starts_with("ok") {
         println!("{}", obj(&[("t", esc("note")), ("msg", esc(&format!("scenario {} fails without faults: {}", scn, base.class)))]));
@@ -511,6 +529,30 @@ fn sweep_writer(ctx: &mut Ctx, scn: &str, key_suffix: &str, stack: &str, run: &d
             }
         }
     }
+    // several simultaneous faults, random
+    for _ in 0..nrandom {
+        let sched = random_sched(rng, base.counts);
+        let st = sched.text();
+        let o = run(sched);
+        ctx.runs += 1;
+        ctx.random_runs += 1;
+        *ctx.per_scn.entry(scn.to_string()).or_insert(0) += 1;
+        if o.class.starts_with("panic") {
+            viol(ctx, &format!("panic:{}", key_suffix), &format!("{} panicked under {}: {}", scn, st, o.class), scn, &st, &[]);
+        } else if o.class.starts_with("ok") {
+            ctx.ok_runs += 1;
+            if o.dev != base.dev {
+                viol(ctx, &format!("ok-but-incomplete:{}", key_suffix),
+                     &format!("{} returned Ok under {} but the device holds {} instead of the complete result {}", scn, st, fnv(&o.dev), fnv(&base.dev)),
+                     scn, &st, &[("device", esc(&hex(&o.dev))), ("expected", esc(&hex(&base.dev)))]);
+            }
+        } else {
+            ctx.err_runs += 1;
+        }
+        if ctx.emit_cases {
+            println!("{}", obj(&[("t", esc("case")), ("scenario", esc(scn)), ("sched", esc(&st)), ("class", esc(o.class.split(':').next().unwrap())), ("dev", esc(&fnv(&o.dev)))]));
+        }
+    }
 }
 
 fn main() {
@@ -518,7 +560,8 @@ fn main() {
     let seed = env_seed();
     let thorough = env_tier_thorough();
     let mut rng = Rng::new(seed, 0xC13);
-    let mut ctx = Ctx { runs: 0, ok_runs: 0, err_runs: 0, viols: 0, per_scn: Default::default(), modes: Default::default(), emit_cases: true };
+    let nrandom = if thorough { 400 } else { 40 };
+    let mut ctx = Ctx { runs: 0, ok_runs: 0, err_runs: 0, random_runs: 0, viols: 0, per_scn: Default::default(), modes: Default::default(), emit_cases: true };
 
     // ---- inputs
     let mut inputs: Vec<(String, Input)> = vec![];
@@ -550,10 +593,11 @@ fn main() {
                 let scn = format!("encode:{}:{}:{}", front, stack, name);
                 let key = match stack {
                     "raw" => format!("encode-{}-raw", front),
-                    _ => "create-bufwriter-unchecked-flush".to_string(),
+                    "buf" => format!("encode-{}-create-bufwriter", front),
+                    _ => format!("encode-{}-bufwriter16", front),
                 };
                 ctx.emit_cases = front == "sample" || name == "in0";
-                sweep_writer(&mut ctx, &scn, &key, stack, &|s| run_encode(front, stack, inp, s), &valid);
+                sweep_writer(&mut ctx, &mut rng, nrandom, &scn, &key, stack, &|s| run_encode(front, stack, inp, s), &valid);
             }
         }
     }
@@ -586,7 +630,7 @@ fn main() {
                     Err(e) => Some(format!("does not read back: {}", err_class(&e))),
                 }
             };
-            sweep_writer(&mut ctx, &scn, &format!("write-blocks-{}", stack), stack, &|s| run_write_blocks(stack, blocks, s), &valid);
+            sweep_writer(&mut ctx, &mut rng, nrandom, &scn, &format!("write-blocks-{}", stack), stack, &|s| run_write_blocks(stack, blocks, s), &valid);
         }
     }
 
@@ -670,6 +714,39 @@ fn main() {
                     }
                 }
             }
+            // several simultaneous faults on both devices, random
+            for _ in 0..nrandom {
+                let s1 = random_sched(&mut rng, base.counts);
+                let mut s2 = random_sched(&mut rng, base.counts2);
+                s2.s = Stream::default();
+                s2.r = Stream::default();
+                let st = format!("dev1 {} | dev2 {}", s1.text(), s2.text());
+                let o = run_update(&file, edit, s1.clone(), s2.clone(), false);
+                ctx.runs += 1;
+                ctx.random_runs += 1;
+                *ctx.per_scn.entry(scn.clone()).or_insert(0) += 1;
+                if o.class.starts_with("panic") {
+                    viol(&mut ctx, "panic:update", &format!("{} panicked under {}: {}", scn, st, o.class), &scn, &st, &[]);
+                } else if o.class.starts_with("ok") {
+                    ctx.ok_runs += 1;
+                    let short_read_lie = false;
+                    let _ = short_read_lie;
+                    if o.class != want {
+                        viol(&mut ctx, "update-path-changed-under-faults", &format!("{} returned {} under {} (fault-free: {})", scn, o.class, st, want), &scn, &st, &[]);
+                    } else if *expect == "inplace" && o.dev != ref1 {
+                        viol(&mut ctx, "update-inplace-unchecked-flush", &format!("{} returned Ok(false) under {} but the file holds {} instead of the updated {}", scn, st, fnv(&o.dev), fnv(&ref1)), &scn, &st, &[]);
+                    } else if *expect == "rebuild" && o.dev2.as_ref() != Some(&ref2) {
+                        viol(&mut ctx, "ok-but-incomplete:update-rebuild", &format!("{} returned Ok(true) under {} but the rebuilt file holds {} instead of {}", scn, st, fnv(o.dev2.as_ref().unwrap()), fnv(&ref2)), &scn, &st, &[]);
+                    }
+                    if o.err_reads > 0 {
+                        viol(&mut ctx, "read-error-swallowed:update", &format!("{} returned {} although {} read call(s) failed with a non-transient error", scn, o.class, o.err_reads), &scn, &st, &[]);
+                    }
+                } else {
+                    ctx.err_runs += 1;
+                }
+                println!("{}", obj(&[("t", esc("ucase")), ("scenario", esc(&scn)), ("dev", "1".to_string()), ("sched", esc(&s1.text())), ("sched2", esc(&s2.text())),
+                    ("class", esc(&o.class.split(':').take(2).collect::<Vec<_>>().join(":"))), ("d1", esc(&fnv(&o.dev))), ("d2", esc(&fnv(o.dev2.as_ref().unwrap())))]));
+            }
             // the `rebuilt` closure itself failing
             if *expect == "rebuild" {
                 let o = run_update(&file, edit, Sched::default(), Sched::default(), true);
@@ -719,7 +796,7 @@ fn main() {
     }
     let per = obj(&ctx.per_scn.iter().map(|(k, v)| (k.as_str(), v.to_string())).collect::<Vec<_>>());
     let modes = obj(&ctx.modes.iter().map(|(k, v)| (k.as_str(), v.to_string())).collect::<Vec<_>>());
-    println!("{}", obj(&[("t", esc("stat")), ("runs", ctx.runs.to_string()), ("ok_runs", ctx.ok_runs.to_string()), ("err_runs", ctx.err_runs.to_string()),
+    println!("{}", obj(&[("t", esc("stat")), ("runs", ctx.runs.to_string()), ("ok_runs", ctx.ok_runs.to_string()), ("err_runs", ctx.err_runs.to_string()), ("random_multi_fault_runs", ctx.random_runs.to_string()),
         ("viols", ctx.viols.to_string()), ("per_scenario", per), ("modes", modes)]));
 }
 
